@@ -67,9 +67,6 @@ func adam_dense_with_gradient(evalGradient DenseGradientF, x0 DenseFloat64Vector
     if gradient_is_nan(gradient) {
       return x1, fmt.Errorf("Gradient NaN value detected")
     }
-    if (constraints.Value != nil && !constraints.Value(x2)) {
-      return x1, fmt.Errorf("Constraints voilated")
-    }
     // execute hook if available
     if hook.Value != nil && hook.Value(x1, gradient, nil) {
       break
@@ -91,6 +88,10 @@ func adam_dense_with_gradient(evalGradient DenseGradientF, x0 DenseFloat64Vector
     }
     beta1_t *= beta1
     beta2_t *= beta2
+    // accept the new position only if it satisfies the constraints
+    if (constraints.Value != nil && !constraints.Value(x2)) {
+      return x1, fmt.Errorf("Constraints voilated")
+    }
     copy(x1, x2)
   }
   return x1, nil
